@@ -144,6 +144,14 @@ def oracle(res: dict, jt: dict, ast: dict | None = None) -> list[tuple[str, str]
                 if isinstance(last, bool) or not isinstance(last, int) or last not in offs:
                     kind = "user_op_named_like_jump_op" if o["name"] in user else "jump_target_not_an_op"
                     bad.append((kind, f"routine {ri} offset {o['off']}: {o['name']}{o['params']} — last parameter {last!r} is not the offset of an op of the result"))
+                elif len(o["params"]) != jt[o["name"]] + 1:
+                    # exactly ONE parameter is appended to the written arguments, and it lands at the index the op kind
+                    # defines (pinned table): `Jump`/`Call` have 1 parameter, `Branch` 3, `BranchDebug` 2, `Case` 2, ...
+                    kind = "user_op_named_like_jump_op" if o["name"] in user else "jump_param_not_at_table_index"
+                    bad.append((kind, f"routine {ri} offset {o['off']}: {o['name']}{o['params']} has {len(o['params'])} parameters, the jump parameter "
+                                      f"of {o['name']} belongs at index {jt[o['name']]} and must be the last one"))
+    for grp in res.get("shared_params") or []:
+        bad.append(("params_list_shared", f"the ops at offsets {grp} hold one and the same params list object"))
     return bad
 
 
@@ -188,7 +196,8 @@ def ssbs_oracle(y: dict, jt: dict, ast: list | None) -> list[tuple[str, str]]:
     """oracle on an SsbScript compile result; dangling jumps are classified op by op (one entry per kind)"""
     y2 = dict(y)
     y2["lens"] = [len(y["infos"]), len(y["coros"]), len(y["ops"])]
-    out = [(k, w) for k, w in oracle(y2, jt, None) if k != "jump_target_not_an_op"]
+    # (the parameter count of an op is whatever the SsbScript author wrote: no index clause here)
+    out = [(k, w) for k, w in oracle(y2, jt, None) if k not in ("jump_target_not_an_op", "jump_param_not_at_table_index")]
     offs = {o["off"] for r in y["ops"] for o in r}
     seen: set[str] = set()
     for ri, r in enumerate(y["ops"]):
@@ -345,6 +354,10 @@ def run(run: core.Run) -> int:
     aud = core.audit(THEOREMS, MODULES) if prep["proofs_ok"] else {"obligations": len(THEOREMS), "discharged": 0, "ok": False, "theorems": {}}
     jobs = core.jobs_for(run.tier)
     jt = impl_c03.jump_table()
+    from .. import spec_tables
+    sync = spec_tables.in_sync()
+    if sync:
+        run.broken_tie("pinned Python specification tables are out of date", {"detail": sync})
     cases, gstats = gen_cases(run)
     pool = core.Pool(jobs)
     try:
